@@ -312,6 +312,16 @@ func runC04(p *core.Prog, r *core.Report) {
 	get := p.Method("httpd", "Params", "Get")
 	var targets []zoneTarget
 	idField := fieldByName(p.Named("httpd", "Store"), "id")
+	if idField == nil {
+		// by role: the byte-slice field of Store (the request-ID buffer)
+		if st := p.Named("httpd", "Store"); st != nil {
+			for _, f := range structFields(st) {
+				if f.Type().String() == "[]byte" {
+					idField = f
+				}
+			}
+		}
+	}
 	serveAssume := []zones.Assumption{{LocField: idField, LocMin: 9, Why: "the pool constructor makes the ID buffer with length 9 and ServeHTTP's reset truncates to 9 (C05-R2, C05-R5)"}}
 	// a reset that truncates to the length of an immutable Mux field from which the constructor also builds the buffer
 	// (C05-R2 proves the two lengths equal): len(Mux.F) <= len(Store.id) whenever a Store is in use
